@@ -402,7 +402,16 @@ func exprPoly(info *types.Info, e ast.Expr, defs map[types.Object]localDef, stop
 			}
 			return polyAtom("len(" + types.ExprString(x.Args[0]) + ")"), true
 		}
+		fnName := ""
 		if f := calleeFunc(info, x); f != nil {
+			fnName = f.Name()
+		} else if id, ok := ast.Unparen(x.Fun).(*ast.Ident); ok && id.Name != "make" && id.Name != "new" && id.Name != "append" {
+			// a call through a function-typed parameter or local (slotAfter(...)): opaque, named as written
+			if _, isVar := info.ObjectOf(id).(*types.Var); isVar {
+				fnName = id.Name
+			}
+		}
+		if fnName != "" {
 			args := []string{}
 			for _, a := range x.Args {
 				p, ok := exprPoly(info, a, defs, stop, depth+1)
@@ -411,7 +420,18 @@ func exprPoly(info *types.Info, e ast.Expr, defs map[types.Object]localDef, stop
 				}
 				args = append(args, p.String())
 			}
-			return polyAtom(f.Name() + "(" + strings.Join(args, ",") + ")"), true
+			return polyAtom(fnName + "(" + strings.Join(args, ",") + ")"), true
+		}
+	case *ast.UnaryExpr:
+		if x.Op == token.SUB {
+			in, ok := exprPoly(info, x.X, defs, stop, depth+1)
+			if !ok {
+				return nil, false
+			}
+			return polyMul(in, polyConst(-1)), true
+		}
+		if x.Op == token.ADD {
+			return exprPoly(info, x.X, defs, stop, depth+1)
 		}
 	case *ast.IndexExpr:
 		// element of an indexable value: opaque atom with a canonical index
